@@ -1,4 +1,5 @@
 import MuscleModel.Wire.Proofs2
+import MuscleModel.Wire.MoreProofs
 
 /-!
 # C01 — Message serialisation round-trips exactly and its size is exact
@@ -83,5 +84,139 @@ example : wfMsg sample ∧ depthMsg sample ≤ 256 := by
       tcDouble, tcFloat, tcInt64, tcInt16, tcInt8, tcPoint, tcRect, normBool, encStrs, encStrItems, encMsgItems,
       encMsg, encFields, encFixed, encFixedArr, le32, leN, protocolVersion]
   · simp [sample, depthMsg, depthFields, depthMsgs]
+
+/-! ## Further consequences: injectivity, exact consumption, truncation, additive size
+
+Lemmas: `Wire/MoreProofs.lean`. -/
+
+/-- The bytes determine the content (same statement as `C08.encode_injective`, available here without
+    the C08 imports): equal encodings of well-formed Messages mean equal Messages up to what a round
+    trip may change. -/
+theorem encode_injective_c01 (m₁ m₂ : Msg) (h₁ : wfMsg m₁) (h₂ : wfMsg m₂) (h : encode m₁ = encode m₂) :
+    tripMsg m₁ = tripMsg m₂ := by
+  have d1 := decode_encode (max (depthMsg m₁) (depthMsg m₂)) m₁ h₁ (Nat.le_max_left _ _)
+  have d2 := decode_encode (max (depthMsg m₁) (depthMsg m₂)) m₂ h₂ (Nat.le_max_right _ _)
+  rw [h] at d1
+  exact Option.some.inj (d1.symm.trans d2)
+
+/-- The stream reader (`decMsg`, which returns the unread rest) applied to `encode m ++ rest` consumes
+    exactly `sizeMsg m` bytes: it yields the Message, leaves exactly `rest`, and the consumed prefix
+    `encode m` is `sizeMsg m` bytes long.  Any fuel ≥ the encoded length will do (`decode` supplies
+    input length + 2). -/
+theorem decode_consumes_exactly (mx : Nat) (m : Msg) (rest : Bytes) (h : wfMsg m) (hd : depthMsg m ≤ mx)
+    (fuel : Nat) (hf : (encode m).length ≤ fuel) :
+    decMsg mx fuel 1 (encode m ++ rest) = some (tripMsg m, rest) ∧
+    (encode m).length = sizeMsg m ∧
+    (encode m ++ rest).length = sizeMsg m + rest.length := by
+  have hn := nodes_msg m h
+  have hs := size_msg m h
+  refine ⟨?_, hs, ?_⟩
+  · exact decMsg_enc mx m h fuel 1 rest (by simp only [encode] at hf; omega) (by omega)
+  · simp only [encode, List.length_append, hs]
+
+/-- For ARBITRARY input bytes: whatever the parser accepts has a flattened size no larger than the
+    input.  (No well-formedness hypothesis: this is about the reader alone.) -/
+theorem decode_result_le_input (mx : Nat) (b : Bytes) (m' : Msg) (h : decode mx b = some m') :
+    sizeMsg m' ≤ b.length := by
+  unfold decode at h
+  cases hd : decMsg mx (b.length + 2) 1 b with
+  | none => rw [hd] at h; cases h
+  | some v =>
+    obtain ⟨m'', r⟩ := v
+    rw [hd] at h
+    cases h
+    have := decMsg_size mx _ _ _ _ _ hd
+    omega
+
+/-- Truncation, strongest true form for *every* cut point: whatever the parser makes of a strict prefix
+    of `encode m`, the result is strictly smaller (in flattened size) than `m`.  The parser is lenient
+    — `decode_strict_prefix_none_is_false` below shows a cut exactly where the last payload starts IS
+    accepted, as a Message with an empty field — so "always `none`" is false; but it never reconstructs
+    the original, or anything as large, from fewer bytes. -/
+theorem decode_strict_prefix_smaller (mx : Nat) (m : Msg) (k : Nat) (h : wfMsg m)
+    (hk : k < (encode m).length) (m' : Msg) (hdec : decode mx ((encode m).take k) = some m') :
+    sizeMsg m' < sizeMsg m := by
+  have h1 := decode_result_le_input mx _ m' hdec
+  have h2 := size_exact m h
+  simp only [List.length_take] at h1
+  omega
+
+/-- A truncated buffer is never accepted as the complete Message: for every `k` below the encoded
+    length, parsing the first `k` bytes does not yield `m` (i.e. not what parsing all bytes yields). -/
+theorem decode_strict_prefix_fails (mx : Nat) (m : Msg) (k : Nat) (h : wfMsg m)
+    (hk : k < (encode m).length) : decode mx ((encode m).take k) ≠ some (tripMsg m) := by
+  intro hdec
+  have := decode_strict_prefix_smaller mx m k h hk _ hdec
+  rw [sizeMsg_trip m h] at this
+  omega
+
+/-- Same, phrased against the full parse: a strict prefix never parses to the same result as the
+    whole encoding. -/
+theorem decode_strict_prefix_differs (mx : Nat) (m : Msg) (k : Nat) (h : wfMsg m) (hd : depthMsg m ≤ mx)
+    (hk : k < (encode m).length) : decode mx ((encode m).take k) ≠ decode mx (encode m) := by
+  rw [decode_encode mx m h hd]
+  exact decode_strict_prefix_fails mx m k h hk
+
+/-- …and a cut inside the 12-byte header, or anywhere before `12 + 12 × (number of flattenable entries)`
+    bytes, IS always rejected (header reads fail; then the parser's plausibility check "every declared
+    entry needs at least 12 bytes of what is left" fails). -/
+theorem decode_truncated_head_fails (mx : Nat) (m : Msg) (k : Nat) (h : wfMsg m)
+    (hk : k < 12 + 12 * countFlat m.fields) : decode mx ((encode m).take k) = none := by
+  cases m with
+  | mk w fs =>
+    simp only [wfMsg] at h
+    simp only [Msg.fields] at hk
+    simp only [decode, encode, decMsg_take_head mx _ 1 w fs k h.1 h.2.1 hk]
+
+/-- `Message::FlattenedSize` is additive: 12 header bytes plus, per entry, `sizeEntry` (name length
+    word, name + NUL, type code, payload length word, payload; 0 for a pointer/tag field). -/
+theorem size_additive (m : Msg) :
+    sizeMsg m = 12 + (m.fields.map (fun e => sizeEntry e.1 e.2)).sum := by
+  cases m with
+  | mk w fs => simp only [sizeMsg, Msg.fields, sizeFields_eq_sum]
+
+theorem size_entry_flattenable (n : Bytes) (f : Field) (h : f.flattenable = true) :
+    sizeEntry n f = 4 + (n.length + 1) + 4 + 4 + sizePayload f := by
+  simp [sizeEntry, h]
+
+/-! Non-vacuity for the truncation theorems: `sample` (nested, 105 bytes) satisfies the hypotheses for
+every cut point; and the counter-example showing why the conclusion is not "`= none`". -/
+
+theorem sample_wf : wfMsg sample := by
+  simp [sample, wfMsg, wfFields, wfMsgs, countFlat, nulFree, flatNames, U32, wireItemSize, tcInt32, tcBool,
+    tcDouble, tcFloat, tcInt64, tcInt16, tcInt8, tcPoint, tcRect, normBool, encStrs, encStrItems, encMsgItems,
+    encMsg, encFields, encFixed, encFixedArr, le32, leN, protocolVersion]
+
+theorem sample_length : (encode sample).length = 105 := by
+  rw [size_exact sample sample_wf]
+  simp [sample, sizeMsg, sizeFields, sizeFixed, sizeStrs, sizeMsgsF, sumLen, wireItemSize, tcInt32, tcBool,
+    tcDouble, tcFloat, tcInt64, tcInt16, tcInt8, tcPoint, tcRect]
+
+example : ∀ k, k < 105 → decode 256 ((encode sample).take k) ≠ some (tripMsg sample) :=
+  fun k hk => decode_strict_prefix_fails 256 sample k sample_wf (by rw [sample_length]; exact hk)
+
+example : ∀ k, k < 48 → decode 256 ((encode sample).take k) = none :=
+  fun k hk => decode_truncated_head_fails 256 sample k sample_wf (by simp [sample, Msg.fields, countFlat]; omega)
+
+/-- one inline int32 field `a = 1`; 30 bytes, the last 4 are the payload -/
+def truncSample : Msg := .mk 1 [([0x61], .fixed tcInt32 .inl [[1, 0, 0, 0]])]
+
+theorem truncSample_take :
+    (encode truncSample).take 26 =
+      [48, 48, 77, 80, 1, 0, 0, 0, 1, 0, 0, 0, 2, 0, 0, 0, 97, 0, 71, 78, 79, 76, 4, 0, 0, 0] := by
+  simp [truncSample, encode, encMsg, encFields, encFixed, countFlat, le32, leN, protocolVersion, tcInt32]
+
+/-- Counter-example to "a truncated Message is always rejected": cutting `truncSample` (30 bytes) after
+    26 bytes — header and field header intact, payload gone — is ACCEPTED by the parser, as a Message
+    whose field `a` is an empty int32 array (the limited view is empty, `0 % 4 = 0`, zero items). -/
+theorem decode_strict_prefix_none_is_false :
+    (26 < (encode truncSample).length) ∧
+    decode 256 ((encode truncSample).take 26) = some (.mk 1 [([0x61], .fixed tcInt32 .arr [])]) := by
+  refine ⟨?_, ?_⟩
+  · simp [truncSample, encode, encMsg, encFields, encFixed, countFlat, le32, leN, protocolVersion, tcInt32]
+  · rw [truncSample_take]
+    simp [decode, decMsg, decFields, decPayload, decFixed, chunks, rd32, rdN, takeN, leVal, cstr, lookupField,
+      upsertField, wireItemSize, oldestProtocolVersion, protocolVersion,
+      tcMessage, tcBool, tcDouble, tcFloat, tcInt64, tcInt32, tcInt16, tcInt8, tcPoint, tcRect, tcPointer, tcTag]
 
 end Muscle.Props.C01
